@@ -59,8 +59,12 @@ def complete_steps(max_size=40):
 
 def gates(kinds=("iter", "submit", "batchsize", "retrieve", "batchdone"), max_gates=3, max_at=12):
     do = st.lists(st.tuples(st.sampled_from(["c", "c", "late"]), st.integers(0, 5)).map(list), min_size=1, max_size=2)
-    g = st.fixed_dictionaries({"gate": st.sampled_from(list(kinds)), "at": st.integers(0, max_at), "do": do})
-    return st.lists(g, max_size=max_gates, unique_by=lambda x: (x["gate"], x["at"]))
+    g = st.fixed_dictionaries({"gate": st.sampled_from(list(kinds)), "at": st.integers(0, max_at), "do": do,
+                               "park": st.sampled_from([False, False, True])})
+    # a worker thread parked early inside a hook that runs under joblib's lock, until the next consumer action started
+    parked = st.fixed_dictionaries({"gate": st.sampled_from(["iter", "retrieve", "retrieve", "batchdone"]), "at": st.integers(0, 6),
+                                    "do": st.just([]), "park": st.just(True)})
+    return st.lists(st.one_of(g, g, parked), max_size=max_gates, unique_by=lambda x: (x["gate"], x["at"]))
 
 
 # ---- trace analyses shared by the property modules --------------------------------------
